@@ -154,7 +154,8 @@ def run_property(pid, tier, seed, only_bounded=None, write=True, quiet=False):
                               'tier B: cases of the bounded items, distinct by the key each item states (see bounded[].bound)'),
         samples=([dict(obligation=o['name'], smt2=o.get('smt2_sample')) for o in all_obl if o.get('smt2_sample')][:2]
                  + [dict(obligation=o['name'], kind=o.get('kind'), backend=o.get('backend')) for o in all_obl][:3]
-                 + [dict(bounded_item=b['item'], case=s) for b in bounded_items for s in b['samples'][:1]][:4]),
+                 + [dict(bounded_item=b['item'], case=s) for b in bounded_items for s in b['samples'][:1]][:4]
+                 + [dict(bounded_item=b['item'], bound=b['bound'], evaluations=b['evaluations']) for b in bounded_items][:3]),
         undecided=undecided, checker_errors=errors[:5],
         known_findings_hit=sorted(seen),
         tiers=dict(P='proved by generated obligations', F='decided exactly on a finite automaton',
